@@ -77,6 +77,25 @@ CLAIMED['C17'] = dict(
          '(this obligation is closer to exhaustive small-scope enumeration than to symbolic reasoning; stated as such). ' + NOTE_COMMON,
     design='§5/C17')
 
+CLAIMED['C01'] = dict(
+    technique='CrossHair on a symbolic string for preprocessing; symx + z3 on symbolic match/result intervals for every span-producing unit',
+    text='Length-preserving preprocessing is confirmed by CrossHair for every code point (symbolic one-character string; two characters in the thorough '
+         'tier). ' + SX + 'The number and sequence sweeps, the percentage position map, merge_all_tokens and the six Model.parse assemblers run on '
+         'arbitrary contract-respecting match intervals in bounded sources; each result must be in range, non-empty and carry the trimmed slice as text, '
+         'and each model result must have end = start + length - 1.',
+    note='The regex engine is a stub returning symbolic intervals under the finditer contract; which intervals real patterns produce is outside. '
+         'Units not covered: NumberWithUnitExtractor prefix/suffix arithmetic, phone prefix re-spanning, merged date-time modifier strip/restore, CJK extractors. '
+         'Known finding F2 (empty date-time entity) is reported through its API witness. ' + NOTE_COMMON,
+    design='§5/C01')
+CLAIMED['C12'] = dict(
+    technique='one inductive step per overlap-resolution mechanism on symbolic intervals (symx + z3), known defect regions excluded and searched separately',
+    text=SX + 'add_to, merge_all_tokens, the number/sequence union sweeps and the unit model b_add filter run on arbitrary disjoint/contract-respecting '
+         'symbolic intervals; the output must be pairwise disjoint (and nothing may vanish without a covering competitor). Regions F3a/F3b are excluded '
+         'by precondition and each is searched by its own obligation plus an API witness, which print KNOWN-FINDING while the defect exists.',
+    note='Covers the mechanisms named in the property anchors, not the interplay of real patterns on a sentence; _select_candidates and the merged '
+         'number/unit grouping are not built. ' + NOTE_COMMON,
+    design='§5/C12')
+
 NOT_APPLICABLE = {
     'C18': 'ground equality of ~50 concrete generated files against concrete YAML: no quantified variable for a solver to range over; '
            'deciding it is executing the generator (whose dependency ruamel.yaml is absent from every usable interpreter)',
